@@ -92,6 +92,7 @@ impl<U: User, E: Engine<U>> Env<U, E> {
         match t {
             T::V(i) => self.var(*i),
             T::A(_) => panic!("cannot encode a reified variable"),
+            T::W => LTerm::any(),
             T::I(n) => LTerm::from(*n as isize),
             T::B(b) => LTerm::from(*b),
             T::C(c) => LTerm::from(*c),
@@ -391,6 +392,52 @@ impl<U: User, E: Engine<U>> Builder<U, E> {
                 let body: K = b.conj::<K>(gs);
                 Project::new(projected, body).cast_into()
             }
+            G::Match(kind, t, arms) => {
+                // mirrors the macro: per arm alternative, the matched term is evaluated in the
+                // outer scope, then the pattern's names become new variables local to the arm
+                let term = e.enc(t);
+                let mut built: Vec<Vec<K>> = vec![];
+                for (pats, body) in arms {
+                    for pat in pats {
+                        let mut pv = vec![];
+                        pat.vars(&mut pv);
+                        let mut b = Builder {
+                            env: Rc::clone(&self.env),
+                            probes: self.probes.clone(),
+                        };
+                        for v in pv {
+                            if let T::V(i) = v {
+                                let name: &'static str = if (i as usize) < VAR_NAMES.len() { VAR_NAMES[i as usize] } else { "v" };
+                                b = b.with_binding(i, LTerm::var(name));
+                            }
+                        }
+                        let mut goals: Vec<K> = vec![proto_vulcan::relation::eq(term.clone(), b.env.enc(pat)).cast_into()];
+                        for g in body {
+                            goals.push(b.goal::<K>(g));
+                        }
+                        built.push(goals);
+                    }
+                }
+                let refs: Vec<&[K]> = built.iter().map(|a| a.as_slice()).collect();
+                match kind {
+                    MatchKind::Match | MatchKind::Matche => Conde::from_conjunctions(&refs).cast_into(),
+                    MatchKind::Matcha | MatchKind::Matchu => {
+                        // BFS-only operators
+                        let any: Box<dyn std::any::Any> = Box::new(built);
+                        let built: Vec<Vec<Goal<U, E>>> = match any.downcast::<Vec<Vec<Goal<U, E>>>>() {
+                            Ok(b) => *b,
+                            Err(_) => panic!("harness error: matcha/matchu in DFS typing"),
+                        };
+                        let refs: Vec<&[Goal<U, E>]> = built.iter().map(|a| a.as_slice()).collect();
+                        let g = if *kind == MatchKind::Matcha { Conda::from_conjunctions(&refs) } else { Condu::from_conjunctions(&refs) };
+                        downcast_goal::<U, E, K>(g)
+                    }
+                }
+            }
+            G::Call(name, args) => {
+                let a: Vec<LTerm<U, E>> = args.iter().map(|t| e.enc(t)).collect();
+                crate::userrel::call::<U, E, K>(name, a)
+            }
             G::Probe(k) => {
                 let f = Rc::clone(&self.probes[*k as usize]);
                 let env = Rc::clone(&self.env);
@@ -579,8 +626,19 @@ pub fn query_goal<U: User, E: Engine<U>>(b: &Builder<U, E>, nq: u32, body: &[G])
     let body_goal: Goal<U, E> = Conj::from_vec(body.iter().map(|g| b.bfs(g)).collect());
     let inner: Vec<Goal<U, E>> = vec![
         proto_vulcan::relation::eq(q.clone(), LTerm::from_vec(qvars.clone())).cast_into(),
-        body_goal,
-        proto_vulcan::state::reify(q.clone()),
+        proto_vulcan::query::reified(body_goal, proto_vulcan::state::reify(q.clone())),
+    ];
+    let goal: Goal<U, E> = Fresh::new(vec![q], InferredConj::from_vec(inner).cast_into()).cast_into();
+    (qvars, goal)
+}
+
+/// Wraps an already built goal the way `proto_vulcan_query!` does (fresh __query__, unify it with
+/// the list of query variables, the body, reification).
+pub fn wrap_query<U: User, E: Engine<U>>(qvars: Vec<LTerm<U, E>>, body: Goal<U, E>) -> (Vec<LTerm<U, E>>, Goal<U, E>) {
+    let q = LTerm::var("__query__");
+    let inner: Vec<Goal<U, E>> = vec![
+        proto_vulcan::relation::eq(q.clone(), LTerm::from_vec(qvars.clone())).cast_into(),
+        proto_vulcan::query::reified(body, proto_vulcan::state::reify(q.clone())),
     ];
     let goal: Goal<U, E> = Fresh::new(vec![q], InferredConj::from_vec(inner).cast_into()).cast_into();
     (qvars, goal)
